@@ -526,6 +526,13 @@ pub fn check_hist(r: &mut Recorder, c: &Value) {
         r.stat("hist_step");
         r.stat(&format!("op_{}", op["op"].as_str().unwrap_or("?")));
         let before = proj_loc(&loc);
+        // value semantics: the same operation on a CLONE of the value and on the value REBUILT from its parts
+        // (into_parts / from_parts) must do what it does on the original, and must leave the original alone
+        let mut twin_clone = loc.clone();
+        let mut twin_parts: Option<Locale> = guard(|| {
+            let (l, s, rg, v, ext) = loc.clone().into_parts();
+            ExtensionsMap::from_str(&ext).ok().map(|em| Locale::from_parts(l, s, rg, &v, Some(em)))
+        }).ok().flatten();
         let res = guard(|| ops::apply(&mut loc, op));
         let res = match res {
             Ok(x) => x,
@@ -537,6 +544,33 @@ pub fn check_hist(r: &mut Recorder, c: &Value) {
         };
         let after = proj_loc(&loc);
         let ser = loc.to_string();
+        if proj_loc(&twin_clone) != before {
+            r.dis(&["C10"], "mutation-of-the-original-shows-in-its-clone", json!({"start": show(&start), "history": trail, "clone": proj_loc(&twin_clone), "before": before}));
+        }
+        match guard(|| ops::apply(&mut twin_clone, op)) {
+            Ok(rc) => {
+                if rc != res || proj_loc(&twin_clone) != after || twin_clone.to_string() != ser || (twin_clone == loc) != true {
+                    r.dis(&["C10"], "clone-behaves-differently", json!({"start": show(&start), "history": trail, "original": {"res": res, "st": after}, "clone": {"res": rc, "st": proj_loc(&twin_clone)}}));
+                }
+                if proj_loc(&loc) != after {
+                    r.dis(&["C10"], "mutation-of-a-clone-shows-in-the-original", json!({"start": show(&start), "history": trail}));
+                }
+            }
+            Err(at) => r.dis(&["C01", "C10"], &format!("panic@{}", short_at(&at)), json!({"start": show(&start), "history": trail, "on": "clone", "panic": at})),
+        }
+        if let Some(tp) = twin_parts.as_mut() {
+            if proj_loc(tp) == before {
+                match guard(|| ops::apply(tp, op)) {
+                    Ok(rp) => {
+                        if rp != res || proj_loc(tp) != after || tp.to_string() != ser || (*tp == loc) != true {
+                            r.dis(&["C17", "C10"], "value-rebuilt-from-its-parts-behaves-differently", json!({"start": show(&start), "history": trail, "original": {"res": res, "st": after}, "rebuilt": {"res": rp, "st": proj_loc(tp)}}));
+                        }
+                    }
+                    Err(at) => r.dis(&["C01", "C10"], &format!("panic@{}", short_at(&at)), json!({"start": show(&start), "history": trail, "on": "value rebuilt from its parts", "panic": at})),
+                }
+                r.stat("hist_step_on_rebuilt_value");
+            }
+        }
         let mut bad: Vec<&str> = Vec::new();
         if res != st["res"] {
             bad.push("result");
